@@ -1869,7 +1869,7 @@ fn main() {
     let parts: Vec<Part> = if ctx.quick() {
         vec![
             Part { name: "ids", n_pool: 8, kmax: 3, all_partitions: false, hmax: 1, schedules: vec![no_fill, fill] },
-            Part { name: "changes", n_pool: 5, kmax: 3, all_partitions: true, hmax: 3, schedules: vec![no_fill, fill] },
+            Part { name: "changes", n_pool: 4, kmax: 3, all_partitions: true, hmax: 3, schedules: vec![no_fill, fill] },
         ]
     } else {
         vec![
